@@ -226,7 +226,14 @@ def rule_state(ctx):
       df = d_
   ctx.record(R, f.where, "finished <=> undecided == 0 and runs >= min_repetitions", okf, df or "truth table over regions of (undecided, runs) with symbolic min_repetitions")
   rets = [e for e in w.events if e.kind == "return" and e.node is not None and not any(c[0] == "opaque" for c, pol, node in e.state.pc)]
-  okr = bool(rets) and all(as_poly(e.data["value"]) == sym.mk("attr", SELF, "finished") for e in rets)
+  def returns_finished(e):
+    v = e.data["value"]
+    if isinstance(v, Poly) and v == sym.mk("attr", SELF, "finished"):
+      return True
+    # the very value that was stored into self.finished on this path (returned through a temporary)
+    stored = [w.events[i_] for i_ in e.state.trace if w.events[i_].kind == "setattr" and w.events[i_].data["attr"] == "finished"]
+    return bool(stored) and repr(stored[-1].data["value"]) == repr(v)
+  okr = bool(rets) and all(returns_finished(e) for e in rets)
   runs_inc = [e for e in w.events if e.kind == "augstore" and ast.unparse(e.data["target"]) == "self.runs"]
   okr = okr and len({id(e.node) for e in runs_inc}) == 1 and all(as_poly(e.data["rhs"]).as_int() == 1 and not e.state.tags for e in runs_inc)
   ctx.record(R, f.where, "returns finished; runs += 1 once per call", okr, "bookkeeping of repetitions" if okr else "Run does not return self.finished / runs is not incremented exactly once")
